@@ -28,6 +28,8 @@ type Obligation struct {
 	Time   float64
 	Output string
 	Expect string // "unsat" normally, "sat" for canaries/covers
+	Parent *Obligation // the same clause on the merged exit state: when that discharges, this one is implied
+	Aux    bool        // a proof strategy, not an obligation of its own (never reported)
 	Alt    *Term  // a stronger goal tried first (the negated antecedent of an implication: the case does not arise on this exit)
 }
 
